@@ -3,6 +3,7 @@ package smgp30
 import (
 	"bytes"
 	"crypto/md5"
+	"encoding/hex"
 	"fmt"
 	"time"
 
@@ -99,3 +100,18 @@ func genAuthenticatorClient(clientId, secret string, timestamp uint32) ([]byte, 
 
 	return h.Sum(nil), nil
 }
+
+// msgIDOctets returns what goes into the 10-octet MsgID slot. IDecode reports a
+// MsgID as 20 hexadecimal digits; that form is converted back to its 10 octets
+// so that a decoded PDU can be encoded again. Any other value is taken as the
+// raw octets.
+func msgIDOctets(id string) string {
+	if len(id) == 2*msgIDLength {
+		if raw, err := hex.DecodeString(id); err == nil {
+			return string(raw)
+		}
+	}
+	return id
+}
+
+const msgIDLength = 10
